@@ -18,7 +18,7 @@ open XsVerif.History
 
 theorem inv_init (sch : Sch) : Inv sch Res.init := XsVerif.History.inv_init sch
 
-example : Inv ⟨[5], [((0, 10, 5), [11])], [], id⟩ Res.init := inv_init _
+example : Inv ⟨[5], [((0, 10, 5), [11])], [], id, [0], [7]⟩ Res.init := inv_init _
 
 /-- whatever a call does — on a whole document or aborted anywhere — the invariant of the residue is kept:
     additions to `selected_by` / `identity.elements` are widenings the schema permits, memo entries are in
@@ -41,17 +41,20 @@ theorem inv_abort_inside_xsi (sch : Sch) (m : Mode) (s : Res × Ctx) (d : Decl) 
     (h : Inv sch s.1) : Inv sch (step sch m s (.xsiType d t (some k))).1.1 :=
   inv_step sch m s _ h
 
-/-- nothing is ever removed from the residue by a call -/
-theorem residue_grows (sch : Sch) (m : Mode) (r : Res) (doc : List Step) :
+/-- nothing is ever removed from the residue by a call that loads no namespace (a load re-creates the
+    components: `rebuild_resets`) -/
+theorem residue_grows (sch : Sch) (m : Mode) (r : Res) (doc : List Step)
+    (hw : (doc.all fun x => !isWild x) = true) :
     (∀ p ∈ r.sel, p ∈ (call sch m r doc).1.sel) ∧ (∀ p ∈ r.elems, p ∈ (call sch m r doc).1.elems) ∧
     (∀ p ∈ r.xsi, p ∈ (call sch m r doc).1.xsi) := by
   simp only [call]
-  exact run_mono sch m doc (r, [])
+  exact run_mono sch m doc ({ r with stale := false }, []) hw
 
-/-- only the xsi:type block, a first memo call and a scratch use write the residue: entering / leaving
+/-- only the xsi:type block, a first memo call, a scratch use and a wildcard that loads a namespace write the residue: entering / leaving
     elements, collecting fields and lazy counter rebuilding leave the schema object untouched -/
 theorem residue_frame (sch : Sch) (m : Mode) (s : Res × Ctx) (x : Step)
-    (h : match x with | .xsiType .. => False | .memoCall _ => False | .scratchUse _ => False | _ => True) :
+    (h : match x with
+      | .xsiType _ _ _ => False | .memoCall _ => False | .scratchUse _ => False | .wild _ _ _ => False | _ => True) :
     (step sch m s x).1.1 = s.1 := by
   cases x <;> first | rfl | exact absurd h id
 
@@ -66,101 +69,146 @@ theorem scratch_isolated (sch : Sch) (m : Mode) (r : Res) (ctx : Ctx) (junk dirt
     (step sch m ({ r with scratch := junk }, ctx) (.scratchUse dirt)).1.1 = { r with scratch := dirt } := by
   simp [step]
 
-/-! ### the code as it is -/
+/-! ### the code as it is (collection for every open scope, namespaces loaded on demand) -/
 
-/-- **history neutrality of the code as it is**, on self-sufficient documents: after ANY history of
-    complete or aborted calls the observations of a call are those of a fresh schema object.
+/-- **history neutrality of the code as it is**, on namespace-quiet documents: after ANY history of complete
+    or aborted calls (which may have loaded namespaces and rebuilt the components any number of times) the
+    observations of a call — complete or aborted, whatever xsi:type uses it contains — are those of a fresh
+    schema object.
 
-    Full statement (without `selfSufficient`): FALSE for the code as it is — `history_dependent_counterexample`
-    (finding C10-F2), and `neutral_iff_selfSufficient` shows the guard is exactly the region where it holds. -/
+    Full statement (without `nsQuiet`): FALSE for the code as it is — `namespace_load_counterexample`
+    (finding C10-F3); `neutral_iff_nsQuiet` shows the guard is exactly the region where it holds. -/
 theorem history_neutral_partial (sch : Sch) (hist : List (List Step)) (doc : List Step)
-    (hc : complete doc = true) (hss : selfSufficient sch (Res.init, []) doc = true) :
-    (call sch .current (after sch .current hist) doc).2 = (call sch .current Res.init doc).2 := by
+    (hq : nsQuiet sch doc = true) :
+    (call sch .ungated (after sch .ungated hist) doc).2 = (call sch .ungated Res.init doc).2 := by
   simp only [call]
-  exact neutral_gen sch doc _ _ [] ⟨inv_after sch .current hist, XsVerif.History.inv_init sch, by simp [Res.init]⟩ hc hss
+  exact ungated_gen sch doc _ _ [] (inv_unstale (inv_after sch .ungated hist))
+    (inv_unstale (XsVerif.History.inv_init sch)) hq
 
-/-- the same for a call that is itself aborted (strict failure, stop hook, KeyboardInterrupt, abandoned
-    generator): what it observed before the abort is what a fresh schema would have shown it -/
+/-- the same for a call that is itself aborted after `k` steps -/
 theorem history_neutral_prefix (sch : Sch) (hist : List (List Step)) (doc : List Step) (k : Nat)
-    (hc : complete doc = true) (hss : selfSufficient sch (Res.init, []) doc = true) :
-    (call sch .current (after sch .current hist) (doc.take k)).2 = (call sch .current Res.init (doc.take k)).2 :=
-  history_neutral_partial sch hist _ (complete_take doc k hc) (selfSufficient_take sch doc k _ hss)
+    (hq : nsQuiet sch doc = true) :
+    (call sch .ungated (after sch .ungated hist) (doc.take k)).2 = (call sch .ungated Res.init (doc.take k)).2 :=
+  history_neutral_partial sch hist _ (quiet_take sch doc k hq)
 
-/-- a document that is not self-sufficient IS influenced by some history: one earlier call that meets the
-    right xsi:type inside the constraint's scope changes what the call collects -/
-theorem history_dependent_of_not_selfSufficient (sch : Sch) (doc : List Step)
-    (hc : complete doc = true) (hss : selfSufficient sch (Res.init, []) doc = false) :
-    ∃ hist, (call sch .current (after sch .current hist) doc).2 ≠ (call sch .current Res.init doc).2 := by
-  obtain ⟨c, d, ⟨d0, t, hcx, hd⟩, hall⟩ := dependent_gen sch doc Res.init [] hc hss
+/-- a document that is not quiet — a lax or strict wildcard, element or attribute, or the root lookup meets a
+    namespace that is not in the maps after the build but has a location — IS influenced by some history:
+    one earlier call in which a wildcard met that namespace -/
+theorem history_dependent_of_not_nsQuiet (sch : Sch) (doc : List Step) (hq : nsQuiet sch doc = false) :
+    ∃ hist, (call sch .ungated (after sch .ungated hist) doc).2 ≠ (call sch .ungated Res.init doc).2 := by
+  obtain ⟨n, hn, hnb, hall⟩ := ns_dependent_gen sch doc { Res.init with stale := false } []
+    (inv_unstale (XsVerif.History.inv_init sch)) rfl hq
+  refine ⟨[[.wild false .strict n]], ?_⟩
+  simp only [call]
+  apply hall _ (inv_unstale (inv_after sch .ungated _))
+  simp [after, call, run, step, wildStep, isLoaded, hnb, hn, rebuild, Res.init]
+
+/-- **exact characterisation** for the code as it is: a document gives the fresh observations after every
+    history IF AND ONLY IF it is namespace-quiet -/
+theorem neutral_iff_nsQuiet (sch : Sch) (doc : List Step) :
+    (∀ hist, (call sch .ungated (after sch .ungated hist) doc).2 = (call sch .ungated Res.init doc).2) ↔
+    nsQuiet sch doc = true := by
+  constructor
+  · intro h
+    cases hq : nsQuiet sch doc
+    · obtain ⟨hist, hne⟩ := history_dependent_of_not_nsQuiet sch doc hq
+      exact absurd (h hist) hne
+    · rfl
+  · intro hq hist
+    exact history_neutral_partial sch hist doc hq
+
+def availOf : Option Obs → Option Bool
+  | some (.ns a _) => some a
+  | _ => none
+
+/-- **which lookups consult the loaded set, and how**: for the code as it is, WHETHER a wildcard — element or
+    attribute, lax or strict — consults the global declaration of a name never depends on the residue: it does
+    exactly when the namespace is in the maps after the build or has a location (it is then loaded on the
+    spot); a skip wildcard never looks.  What does depend on the history is only whether this call pays the
+    rebuild (`Obs.ns _ rebuilt`) and the lookups that do not load (`nsRead`). -/
+theorem wild_avail_neutral (sch : Sch) (r : Res) (h : Inv sch r) (a : Bool) (pc : PC) (n : Nat) :
+    availOf (wildStep sch .ungated r a pc n).2 =
+      match pc with | .skip => none | _ => some (sch.nsBase.contains n || sch.loadable.contains n) := by
+  have hr : n ∈ r.loaded → n ∈ sch.loadable := h.loadedOK n
+  cases pc with
+  | skip => rfl
+  | lax =>
+    by_cases hb : n ∈ sch.nsBase <;> by_cases hd : n ∈ sch.loadable <;> by_cases hl : n ∈ r.loaded <;>
+      simp_all [wildStep, isLoaded, availOf]
+  | strict =>
+    by_cases hb : n ∈ sch.nsBase <;> by_cases hd : n ∈ sch.loadable <;> by_cases hl : n ∈ r.loaded <;>
+      simp_all [wildStep, isLoaded, availOf]
+
+/-- a wildcard that loads a namespace re-creates the components: every recorded xsi:type use, binding and
+    cache entry is gone, and what the REST of that call writes (it runs on the old components) is lost -/
+theorem rebuild_resets (sch : Sch) (r : Res) (ctx : Ctx) (a : Bool) (pc : PC) (n : Nat) (d : Decl) (t : TyId)
+    (b : Option Nat) (hpc : pc ≠ .skip) (hl : isLoaded sch r n = false) (hd : sch.loadable.contains n = true) :
+    let s := (step sch .ungated (r, ctx) (.wild a pc n)).1
+    s.1.xsi = [] ∧ s.1.sel = [] ∧ s.1.elems = [] ∧ s.1.memo = [] ∧ s.1.loaded = n :: r.loaded ∧
+    (step sch .ungated s (.xsiType d t b)).1.1 = s.1 := by
+  have hd' : n ∈ sch.loadable := by simpa using hd
+  cases pc with
+  | skip => exact absurd rfl hpc
+  | lax => simp [step, wildStep, hl, hd', rebuild]
+  | strict => simp [step, wildStep, hl, hd', rebuild]
+
+/-! ### the code before 1e49c64 (collection gated by `selected_by`; finding C10-F2, fixed) -/
+
+/-- on plain (no namespace lookups, no abort inside an xsi block), self-sufficient documents the gated code was
+    neutral; `gated_dependent_counterexample` and `gated_neutral_iff_selfSufficient` show the guard was exact -/
+theorem gated_neutral_partial (sch : Sch) (hist : List (List Step)) (doc : List Step)
+    (hc : plainDoc doc = true) (hss : selfSufficient sch (Res.init, []) doc = true) :
+    (call sch .gated (after sch .gated hist) doc).2 = (call sch .gated Res.init doc).2 := by
+  simp only [call]
+  exact neutral_gen sch doc _ _ [] ⟨inv_unstale (inv_after sch .gated hist), inv_unstale (XsVerif.History.inv_init sch),
+    by simp [Res.init], rfl, rfl⟩ hc hss
+
+theorem gated_dependent_of_not_selfSufficient (sch : Sch) (doc : List Step)
+    (hc : plainDoc doc = true) (hss : selfSufficient sch (Res.init, []) doc = false) :
+    ∃ hist, (call sch .gated (after sch .gated hist) doc).2 ≠ (call sch .gated Res.init doc).2 := by
+  obtain ⟨c, d, ⟨d0, t, hcx, hd⟩, hall⟩ := dependent_gen sch doc { Res.init with stale := false } [] hc hss
   refine ⟨[[.enter [c], .xsiType d0 t none]], ?_⟩
-  have hrel : Rel sch (after sch .current [[.enter [c], .xsiType d0 t none]]) Res.init :=
-    ⟨inv_after sch .current _, XsVerif.History.inv_init sch, by simp [Res.init]⟩
+  have hrel : Rel sch { after sch .gated [[.enter [c], .xsiType d0 t none]] with stale := false }
+      { Res.init with stale := false } :=
+    ⟨inv_unstale (inv_after sch .gated _), inv_unstale (XsVerif.History.inv_init sch), by simp [Res.init], rfl, rfl⟩
   simp only [call]
   apply hall _ hrel
   simp only [after, List.foldl_cons, List.foldl_nil, call, run, step, Ctx.enter, Ctx.reset, budgeted, stepWrites,
-    xsiWrites, hcx, if_true, List.any_nil, List.nil_append, Bool.false_eq_true, if_false]
+    xsiWrites, hcx, if_true, List.any_nil, List.nil_append, Bool.false_eq_true, if_false, Res.init]
   rw [applyWrites_append]
   apply sel_mono_writes
-  exact sat_loop hcx [(c, true)] Res.init (XsVerif.History.inv_init sch) c (List.mem_cons_self ..) d hd
+  exact sat_loop hcx [(c, true)] _ (inv_unstale (XsVerif.History.inv_init sch)) c (List.mem_cons_self ..) d hd
 
-/-- **exact characterisation**: for the code as it is, a (complete) document gives the fresh result after
-    every history IF AND ONLY IF it is self-sufficient -/
-theorem neutral_iff_selfSufficient (sch : Sch) (doc : List Step) (hc : complete doc = true) :
-    (∀ hist, (call sch .current (after sch .current hist) doc).2 = (call sch .current Res.init doc).2) ↔
+theorem gated_neutral_iff_selfSufficient (sch : Sch) (doc : List Step) (hc : plainDoc doc = true) :
+    (∀ hist, (call sch .gated (after sch .gated hist) doc).2 = (call sch .gated Res.init doc).2) ↔
     selfSufficient sch (Res.init, []) doc = true := by
   constructor
   · intro h
     cases hss : selfSufficient sch (Res.init, []) doc
-    · obtain ⟨hist, hne⟩ := history_dependent_of_not_selfSufficient sch doc hc hss
+    · obtain ⟨hist, hne⟩ := gated_dependent_of_not_selfSufficient sch doc hc hss
       exact absurd (h hist) hne
     · rfl
   · intro hss hist
-    exact history_neutral_partial sch hist doc hc hss
-
-/-- `selfSufficient` in words: at every element end, every enabled constraint that COULD be bound to the
-    element's declaration by some xsi:type is bound already in the run of a fresh schema -/
-theorem selfSufficient_collect (sch : Sch) (r : Res) (ctx : Ctx) (d : Decl) (xs : List Step) :
-    selfSufficient sch (r, ctx) (.collect d :: xs) = true ↔
-    (∀ c, (c, true) ∈ ctx → Widenable sch c d → isSel sch r c d = true) ∧ selfSufficient sch (r, ctx) xs = true := by
-  rw [selfSufficient_cons, Bool.and_eq_true]
-  simp only [stepOK, List.all_eq_true, step]
-  constructor
-  · rintro ⟨h1, h2⟩
-    refine ⟨fun c hc hw => ?_, h2⟩
-    have := h1 (c, true) hc
-    simpa [(widenableB_iff sch c d).2 hw] using this
-  · rintro ⟨h1, h2⟩
-    refine ⟨fun p hp => ?_, h2⟩
-    obtain ⟨c, en⟩ := p
-    cases en
-    · simp
-    · cases hw : widenableB sch c d
-      · simp
-      · simp [h1 c hp ((widenableB_iff sch c d).1 hw)]
-
-/-! ### the proposed repair of C10-F2: collection not gated by `selected_by` -/
-
-/-- with the collection driven by the open scopes alone (notes/fixes/C10-collect-ungated.patch) the
-    observations after ANY history equal a fresh schema's for EVERY document, complete or aborted -/
-theorem history_neutral_ungated (sch : Sch) (hist : List (List Step)) (doc : List Step) :
-    (call sch .ungated (after sch .ungated hist) doc).2 = (call sch .ungated Res.init doc).2 := by
-  simp only [call]
-  exact ungated_gen sch doc _ _ [] (inv_after sch .ungated hist) (XsVerif.History.inv_init sch)
+    exact gated_neutral_partial sch hist doc hc hss
 
 /-! ### concrete witnesses -/
 
 /-- constraints 0 / 1 (`unique` with selector `.//x` on two elements `secA` / `secB`), declaration
     10 = the shared global element `item`, 11 = the local element `x` of the extension type 5,
-    12 = a global element `memb` of type 5 in the substitution group of `head` -/
+    12 = a global element `memb` of type 5 in the substitution group of `head`;
+    namespace 0 = the schema's own (in the maps after the build), 7 = XLink / XHTML (bundled location),
+    9 = a namespace nobody has a location for -/
 def wSch : Sch where
   complex := [5]
   wtab := [((0, 10, 5), [11]), ((1, 10, 5), [11])]
   base := []
   pure k := k
+  nsBase := [0]
+  loadable := [7]
 
 /-- `<secA><item xsi:type="Ext"><x/><x/></item></secA>` -/
 def docA : List Step :=
-  [.enter [0], .xsiType 10 5 none, .collect 11, .collect 11, .collect 10, .leave [(0, none)]]
+  [.nsRead 0, .enter [0], .xsiType 10 5 none, .collect 11, .collect 11, .collect 10, .leave [(0, none)]]
 /-- `<secB><item xsi:type="Ext"><x/><x/></item></secB>` -/
 def docB : List Step :=
   [.enter [1], .xsiType 10 5 none, .collect 11, .collect 11, .collect 10, .leave [(1, none)]]
@@ -171,28 +219,62 @@ def docM : List Step :=
 def docD : List Step :=
   [.enter [0], .collect 10, .leave [(0, none)], .enter [1], .xsiType 10 5 none, .collect 11, .collect 10,
    .leave [(1, none)]]
+/-- `<root><open><h:p/></open></root>`: an element of namespace 7 under a lax element wildcard -/
+def docE : List Step := [.nsRead 0, .wild false .lax 7]
+/-- `<root x:type="bogus"/>`: an attribute of namespace 7 under a lax attribute wildcard -/
+def docT : List Step := [.nsRead 0, .wild true .lax 7]
+/-- `<h:p/>`: the root element itself is in namespace 7 -/
+def docR : List Step := [.nsRead 7]
+/-- attributes / elements of the schema's namespace, of the unknown namespace 9, and of 7 under skip wildcards -/
+def docQ : List Step :=
+  [.nsRead 0, .wild true .lax 0, .wild false .strict 9, .wild true .strict 9, .wild true .skip 7, .wild false .skip 7,
+   .enter [0], .xsiType 10 5 none, .collect 11, .leave [(0, none)]]
 
-example : complete docB = true ∧ selfSufficient wSch (Res.init, []) docB = true := by decide
-example : complete docM = true ∧ selfSufficient wSch (Res.init, []) docM = false := by decide
+example : nsQuiet wSch docQ = true ∧ nsQuiet wSch docA = true := by decide
+example : nsQuiet wSch docE = false ∧ nsQuiet wSch docT = false ∧ nsQuiet wSch docR = false := by decide
+example : plainDoc docB = true ∧ selfSufficient wSch (Res.init, []) docB = true := by decide
+example : plainDoc docM = true ∧ selfSufficient wSch (Res.init, []) docM = false := by decide
 
 /-- finding C10-F1 (fixed by 962be1e), kept as a theorem about the OLD step: once the type was recorded the
     widening was skipped also for constraints that were not enabled when it was first met, so after document A
-    the `x` elements of document B were not collected for `ub`; the code as it is gives the fresh result. -/
+    the `x` elements of document B were not collected for `ub`; the later algorithms give the fresh result. -/
 theorem history_counterexample :
     (call wSch .old (after wSch .old [docA]) docB).2 ≠ (call wSch .old Res.init docB).2 ∧
     (call wSch .old (after wSch .old [docA]) docB).2.take 1 = [.collected [(1, true)] []] ∧
     (call wSch .old Res.init docB).2.take 1 = [.collected [(1, true)] [1]] ∧
-    (call wSch .current (after wSch .current [docA]) docB).2 = (call wSch .current Res.init docB).2 := by
+    (call wSch .gated (after wSch .gated [docA]) docB).2 = (call wSch .gated Res.init docB).2 ∧
+    (call wSch .ungated (after wSch .ungated [docA]) docB).2 = (call wSch .ungated Res.init docB).2 := by
   decide
 
-/-- finding C10-F2: the code as it is, on a document that is NOT self-sufficient.  After document A (which
-    binds `x` to `ua` through `xsi:type`), the `x` children of a substitution-group member inside `secA` are
-    collected (and a duplicate is reported); a fresh schema does not collect them.  The ungated collection
-    gives the same on both. -/
-theorem history_dependent_counterexample :
-    (call wSch .current (after wSch .current [docA]) docM).2.take 1 = [.collected [(0, true)] [0]] ∧
-    (call wSch .current Res.init docM).2.take 1 = [.collected [(0, true)] []] ∧
+/-- finding C10-F2 (fixed by 1e49c64), kept as a theorem about the gated collection: after document A the `x`
+    children of a substitution-group member inside `secA` were collected; a fresh schema did not collect them.
+    The code as it is gives the same on both. -/
+theorem gated_dependent_counterexample :
+    (call wSch .gated (after wSch .gated [docA]) docM).2.take 1 = [.collected [(0, true)] [0]] ∧
+    (call wSch .gated Res.init docM).2.take 1 = [.collected [(0, true)] []] ∧
     (call wSch .ungated (after wSch .ungated [docA]) docM).2 = (call wSch .ungated Res.init docM).2 := by
+  decide
+
+/-- finding C10-F3: the code as it is, on documents that are not namespace-quiet.  (a) the same document E
+    twice: the first call (= a fresh schema) rebuilds the components in its middle, the second does not;
+    (b) after E, the root of namespace 7 is found in the maps, a fresh schema does not find it;
+    (c) the rebuild drops what document A had recorded. -/
+theorem namespace_load_counterexample :
+    (call wSch .ungated Res.init docE).2 = [.nsSeen true, .ns true true] ∧
+    (call wSch .ungated (after wSch .ungated [docE]) docE).2 = [.nsSeen true, .ns true false] ∧
+    (call wSch .ungated Res.init docR).2 = [.nsSeen false] ∧
+    (call wSch .ungated (after wSch .ungated [docE]) docR).2 = [.nsSeen true] ∧
+    (after wSch .ungated [docA]).xsi ≠ [] ∧ (after wSch .ungated [docA, docE]).xsi = [] := by
+  decide
+
+/-- seeded change C10-3 (a non-strict attribute wildcard no longer loads): WHETHER the attribute is checked
+    against its global declaration then depends on what an earlier document loaded — `avail` false on a fresh
+    schema, true after document E — while the code as it is answers `true` both times (`wild_avail_neutral`) -/
+theorem lax_attr_noload_counterexample :
+    (call wSch .laxAttrNoLoad Res.init docT).2 = [.nsSeen true, .ns false false] ∧
+    (call wSch .laxAttrNoLoad (after wSch .laxAttrNoLoad [docE]) docT).2 = [.nsSeen true, .ns true false] ∧
+    (call wSch .ungated Res.init docT).2.map (fun o => availOf (some o)) = [none, some true] ∧
+    (call wSch .ungated (after wSch .ungated [docE]) docT).2.map (fun o => availOf (some o)) = [none, some true] := by
   decide
 
 /-- the order matters.  A variant of the block that records the (type, constraint) pair for every counter of
@@ -202,23 +284,24 @@ def recordDisabled (r : Res) (ctx : Ctx) (d : Decl) (t : TyId) : Res :=
   applyWrites r (ctx.map fun p => Write.pair d t p.1)
 
 theorem record_disabled_breaks_inv :
-    let r := recordDisabled (call wSch .current Res.init docD).1 [(0, false), (1, true)] 10 5
+    let r := recordDisabled (call wSch .gated Res.init docD).1 [(0, false), (1, true)] 10 5
     ¬ Inv wSch r := by
   intro r h
   have := h.pairs 10 5 0 (by decide) 11 (by decide)
   revert this
   decide
 
-/-- … and from that residue the code as it is no longer gives the fresh result on the (self-sufficient) document A -/
+/-- … and from that residue the gated code no longer gave the fresh result on the (self-sufficient) document A -/
 theorem record_disabled_counterexample :
-    let r := recordDisabled (call wSch .current Res.init docD).1 [(0, false), (1, true)] 10 5
-    selfSufficient wSch (Res.init, []) docA = true ∧
-    (call wSch .current r docA).2 ≠ (call wSch .current Res.init docA).2 := by
+    let r := recordDisabled (call wSch .gated Res.init docD).1 [(0, false), (1, true)] 10 5
+    selfSufficient wSch (Res.init, []) docB = true ∧
+    (call wSch .gated r [.enter [0], .xsiType 10 5 none, .collect 11]).2 ≠
+      (call wSch .gated Res.init [.enter [0], .xsiType 10 5 none, .collect 11]).2 := by
   decide
 
 /-- a call aborted between `update_elements` and `xsi_types.add((type, identity))` (2 of the 4 writes of the
     block done) leaves a residue from which document B still gets the fresh observations -/
-example : (call wSch .current (after wSch .current [[.enter [1], .xsiType 10 5 (some 2)]]) docB).2
-    = (call wSch .current Res.init docB).2 := by decide
+example : (call wSch .ungated (after wSch .ungated [[.enter [1], .xsiType 10 5 (some 2)]]) docB).2
+    = (call wSch .ungated Res.init docB).2 := by decide
 
 end XsVerif.Props.C10
